@@ -187,8 +187,12 @@ fn parent(id: &str, tier: Tier) -> i32 {
         println!("KNOWN-FINDING: property={id} {sig}: {what} (hit {n} times)");
     }
     if !inconclusive.is_empty() {
-        for m in &inconclusive {
-            println!("INCONCLUSIVE: {m}");
+        for m in inconclusive.iter().take(3) {
+            let short: String = m.chars().take(400).collect();
+            println!("INCONCLUSIVE: {short}");
+        }
+        if inconclusive.len() > 3 {
+            println!("INCONCLUSIVE: ... and {} more shard(s)", inconclusive.len() - 3);
         }
         if exit == 0 {
             exit = 2;
